@@ -298,6 +298,60 @@ def run_shard(spec_, res):
         v["key"] = v["key"].replace("C13:", "C13:after-extending-subclasses:", 1)
         v["what"] = "after an application defined controller-adding subclasses late in the process: " + v["what"]
     res.count("registry_comparisons", 4)
+    # ... application code that merely REFERS to the class-level metadata: a controller / option kept as a class attribute of an
+    # application class that is not a module (a UI binding, a registry), private deep copies of the tables that are then edited,
+    # a copied controller declaration re-used in a subclass of ANOTHER module type
+    import copy
+    classes = [c for _t, c in sorted(originals.items())]
+    for i, cls in enumerate(classes):
+        try:
+            ns = {}
+            if cls.controllers:
+                key = list(cls.controllers)[i % len(cls.controllers)]
+                ns["target"] = cls.controllers[key]
+                ns["targets"] = dict(cls.controllers)
+            if cls.options:
+                ns["switch"] = next(iter(cls.options.values()))
+            type("Binding" + cls.__name__, (), ns)
+            if i % 2 == 0:
+                import dataclasses
+                dataclasses.make_dataclass("Row" + cls.__name__, [(f"f{j}", object, dataclasses.field(default=v)) for j, v in enumerate(ns.values()) if not isinstance(v, dict)])
+            res.count("application_bindings_defined")
+            table = copy.deepcopy(cls.controllers)
+            for c in table.values():
+                c.default, c.name, c.number = 12345, "edited", 99
+                if hasattr(c.value_type, "max"):
+                    try:
+                        c.value_type.max = 7
+                    except Exception:
+                        pass
+            otable = copy.deepcopy(cls.options)
+            for o in otable.values():
+                try:
+                    o.default, o.byte, o.bit = 1, 9, 1
+                except Exception:
+                    pass
+            res.count("metadata_deep_copies_edited")
+            if cls.controllers:
+                # (into a type declared EARLIER than the lender: a copied declaration keeps its place in the definition order,
+                #  and a subclass whose new controller sorts before the inherited ones is outside what the library supports)
+                one = copy.copy(cls.controllers[list(cls.controllers)[0]])
+                earlier = [c for c in classes if c.controllers and max(getattr(x, "_order", 0) for x in c.controllers.values()) < getattr(one, "_order", -1)]
+                if earlier:
+                    other = earlier[i % len(earlier)]
+                    type(other.__name__ + "Borrowing", (other,), {"rvmon_borrowed": one, "__module__": other.__module__, "__doc__": other.__doc__})
+                    res.count("copied_declarations_reused")
+        except Exception as e:
+            res.count("application_metadata_use_refused")
+            res.hist("application_metadata_use_refused_why", type(e).__name__)
+    MODULE_CLASSES.clear()
+    MODULE_CLASSES.update(originals)
+    n_viol = len(res.violations)
+    compare_all(res)
+    for v in res.violations[n_viol:]:
+        v["key"] = v["key"].replace("C13:", "C13:after-application-metadata-use:", 1)
+        v["what"] = "after application classes referred to / copied the class-level controller and option tables: " + v["what"]
+    res.count("registry_comparisons", 5)
     if spec_["tier"] == "thorough":
         regen_diff(res)
 
